@@ -256,7 +256,10 @@ Fixpoint store_all (c : cache) (v : vsensor) (vals : list (list qn)) (names : li
   | n :: t => store_all (with_raw c (r_set n (EVals (vf (v_fid v) k vals (c_ts c))) (c_raw c))) v vals t (S k)
   end.
 
-Fixpoint get (fuel : nat) (c : cache) (name : string) (select extract : bool) (kw : props) : cache * res :=
+(* one level of SensorCache.get; `rec` = the recursive cache.get(src) available to virtual sensor functions
+   (None when the recursion budget is exhausted: Python's RecursionError) *)
+Definition get_body (rec : option (cache -> string -> cache * res))
+  (c : cache) (name : string) (select extract : bool) (kw : props) : cache * res :=
   if select && negb extract then (c, RErrValue) else
   match r_lookup name (c_raw c) with
   | Some (ERaw gid) =>
@@ -279,10 +282,10 @@ Fixpoint get (fuel : nat) (c : cache) (name : string) (select extract : bool) (k
       match find (fun v => mem_string name (v_names v)) (c_virt c) with
       | None => (c, RErrKey)
       | Some v =>
-          match fuel with
-          | O => (c, RErrOther)
-          | S fuel' =>
-              match eval_srcs (fun c' s => get fuel' c' s false true p_empty) c (v_srcs v) with
+          match rec with
+          | None => (c, RErrOther)
+          | Some getf =>
+              match eval_srcs getf c (v_srcs v) with
               | (c1, inr e) => (c1, e)
               | (c1, inl vals) =>
                   let c2 := store_all c1 v vals (v_names v) O in
@@ -294,6 +297,12 @@ Fixpoint get (fuel : nat) (c : cache) (name : string) (select extract : bool) (k
           end
       end
   end.
+
+Fixpoint get (fuel : nat) : cache -> string -> bool -> bool -> props -> cache * res :=
+  get_body (match fuel with
+            | O => None
+            | S fuel' => Some (fun c s => get fuel' c s false true p_empty)
+            end).
 
 (* ------------------------------------------------------------------ add_aliases *)
 Fixpoint is_prefix (p s : list ascii) : bool :=
